@@ -367,7 +367,12 @@ def run_stage(root, cfg, stage, tier, seed, work):
     mism, compared = [], 0
     if stage.get("model"):
         mbin = os.path.join(root, "build", "model_" + stage["model"])
-        with open(os.path.join(work, "cases.txt")) as fin, open(os.path.join(work, "model.txt"), "w") as fout:
+        cpath = os.path.join(work, "cases.txt")
+        if not os.path.exists(cpath):
+            # the harness died before writing any case (e.g. the real code panics or exits in package init)
+            res["problems"].append("harness wrote no cases.txt (it exited %d before generating cases)" % rc)
+            open(cpath, "w").close()
+        with open(cpath) as fin, open(os.path.join(work, "model.txt"), "w") as fout:
             rc2, err, msecs = run([mbin] + stage.get("model_args", []), stdin=fin, stdout=fout, timeout=tmo)
         res["model_s"] = round(msecs, 1)
         if rc2 != 0:
